@@ -148,6 +148,19 @@ def gen_case(rng, tier, idx):
             lines.append(T.gen_line(rng, cfg, "~~%d~%d~%d~~" % (base, c, l), kinds=kinds, ip_pool=ip_pool, mac_pool=mac_pool,
                                     host_pool=host_pool, plain_tokens=not suffixes))
         calls.append(lines)
+    if cfg["obfuscate_mac"] and rng.random() < 0.25:
+        # an original that is textually the substitute of another original (substitutes are per-octet SHA-1 prefixes, so
+        # such a pair can be planted): X is seen first, then W with substitute(W) == X, then X again
+        import hashlib
+        w = ":".join("%02x" % rng.randint(0, 255) for _ in range(6))
+        if w not in ("00:00:00:00:00:00", "ff:ff:ff:ff:ff:ff"):
+            x = ":".join(hashlib.sha1(h.encode()).hexdigest()[:2] for h in w.split(":"))
+            if x not in ("00:00:00:00:00:00", "ff:ff:ff:ff:ff:ff") and x != w:
+                def one(tag, m):
+                    return {"tag": "~~%d~%s~~" % (base, tag), "d": " ", "slots": [["fill", "link", "link"], ["mac", m, m], ["fill", "up", "up"]]}
+                calls.insert(0, [one("90", x)])
+                calls.insert(rng.randint(1, len(calls)), [one("91", w), one("92", x)])
+                calls.append([one("93", x), one("94", w)])
     return {"cfg": cfg, "calls": calls}
 
 
